@@ -88,6 +88,16 @@ def make_files(d, thorough):
     V.write_pvd(pvd, ["step_0.vtu", "step_1.vtu"])
     out.append(("pvd/index", pvd, [s0, s1]))
     out.append(("pvd/step", s1, [pvd, s0]))
+    # a .vtu with two <Piece> elements (the reader supports one piece only and must not silently read a part of the file)
+    one = os.path.join(d, "one_piece_tmp.vtu")
+    V.write_vtu(one, PTS[:4], [(9, [0, 1, 2, 3])], [("p", "Float64", 1, [0.5, 1.5, 2.5, 3.5])], [("c", "Float64", 1, [10.0])], V.Cfg("ascii"))
+    txt = open(one).read()
+    os.unlink(one)
+    a_, b_ = txt.index("<Piece "), txt.index("</Piece>") + len("</Piece>")
+    piece = txt[a_:b_]
+    two = os.path.join(d, "two_pieces.vtu")
+    open(two, "w").write(txt[:b_] + "\n    " + piece.replace("0.5 1.5 2.5 3.5", "4.5 5.5 6.5 7.5").replace("0.5", "4.5") + txt[b_:])
+    out.append(("vtu/two-pieces", two, []))
     # csv
     c = os.path.join(d, "tab.csv")
     write_csv(c, ["x", "y", "n"], [[0.5, 1.25, 2.5], [3.0, 4.5, 10.0], [1, 22, 333]])
@@ -180,7 +190,7 @@ def run(ctx):
             metas.append((label, "cut", k, data, eod))
         # removal of single DataArray / Piece / DataSet elements
         text = data
-        for m in re.finditer(rb"<DataArray[^>]*?(/>|>.*?</DataArray>)|<Piece [^>]*/>|<DataSet [^>]*/>", text, flags=re.S):
+        for m in re.finditer(rb"<DataArray[^>]*?(/>|>.*?</DataArray>)|<Piece [^>]*/>|<Piece [^>]*[^/]>.*?</Piece>|<DataSet [^>]*/>", text, flags=re.S):
             if b"Name=\"connectivity\"" in m.group(0) or b"Name=\"offsets\"" in m.group(0) or b"Name=\"types\"" in m.group(0):
                 pass
             removed = text[:m.start()] + text[m.end():]
